@@ -305,6 +305,9 @@ def map(
     if isinstance(resolution, int):
         resolution = {"x": resolution, "y": resolution}
     else:
+        # Work on a copy: the defaults filled in below must not end up in the
+        # dictionary of the caller
+        resolution = dict(resolution)
         for xy in "xy":
             if xy not in resolution:
                 resolution[xy] = default_resolution
